@@ -12,6 +12,7 @@ import MagpyVerif.Lemmas.DictIface
 import MagpyVerif.Gen.Ndim
 import MagpyVerif.Lemmas.Level2Shape
 import MagpyVerif.Lemmas.Iface
+import MagpyVerif.Lemmas.OctaIface
 namespace MagpyVerif.C07
 open MagpyVerif.DictIface MagpyVerif.Gen
 
@@ -418,7 +419,7 @@ theorem method_wrappers_agree (flipX : V → V) (vmin vmax : V → V → V) :
     (∀ (i : Nat) (k : Sens G V) (srcs : List (Inp G V)) (f : Flags),
       sensMethod flipX vmin vmax i k srcs f =
         getBtop flipX vmin vmax (starInput srcs) (.list [.obj (.sens i k)]) f) ∧
-    (∀ (i : Nat) (cs : List (Obj G V)) (inputs : List (Inp G V)) (squeeze : Bool) (agg : AggIn) (outOk : Bool),
+    (∀ (i : Nat) (cs : List (Iface.Obj G V)) (inputs : List (Inp G V)) (squeeze : Bool) (agg : AggIn) (outOk : Bool),
       let c : Inp G V := .obj (.coll i cs)
       let f : Flags := { sumup := false, squeeze := squeeze, agg := agg, outOk := outOk }
       collMethod flipX vmin vmax i cs inputs squeeze agg outOk =
@@ -426,7 +427,7 @@ theorem method_wrappers_agree (flipX : V → V) (vmin vmax : V → V → V) :
         | .both => if inputs = [] then getBtop flipX vmin vmax c c f else .error .badUserInput
         | .noSources => getBtop flipX vmin vmax (.list inputs) c f
         | .noSensors => getBtop flipX vmin vmax c (starInput inputs) f) ∧
-    (∀ (i : Nat) (cs : List (Obj G V)),
+    (∀ (i : Nat) (cs : List (Iface.Obj G V)),
       (collBranch i cs = .both ↔ (Obj.coll i cs).sourcesAll ≠ [] ∧ (Obj.coll i cs).sensorsAll ≠ []) ∧
       (collBranch i cs = .noSources ↔ (Obj.coll i cs).sourcesAll = []) ∧
       (collBranch i cs = .noSensors ↔ (Obj.coll i cs).sourcesAll ≠ [] ∧ (Obj.coll i cs).sensorsAll = [])) := by
@@ -450,7 +451,7 @@ theorem method_wrappers_agree (flipX : V → V) (vmin vmax : V → V → V) :
 sensors `coll.getX(sens) = sens.getX(coll)`; for a Collection without sources `coll.getX(src) = src.getX(coll)` — each
 with the same `squeeze` / `pixel_agg` / `output` (and `sumup=False`, which the source and collection methods fix). -/
 theorem method_forms_coincide (flipX : V → V) (vmin vmax : V → V → V) (i j : Nat) (s : Src G V) (k : Sens G V)
-    (cs : List (Obj G V)) (squeeze : Bool) (agg : AggIn) (outOk : Bool) :
+    (cs : List (Iface.Obj G V)) (squeeze : Bool) (agg : AggIn) (outOk : Bool) :
     let f : Flags := { sumup := false, squeeze := squeeze, agg := agg, outOk := outOk }
     srcMethod flipX vmin vmax i s [.obj (.sens j k)] squeeze agg outOk =
       sensMethod flipX vmin vmax j k [.obj (.src i s)] f ∧
@@ -553,8 +554,8 @@ theorem format_src_flatten_spec (inp : Inp G V) :
       sf.entries.length = sf.sources.length ∧ sf.entries.flatMap Entry.leaves = sf.srcList.map (·.2)) ∧
     ((∃ sf, formatSrc inp = .ok sf) ↔ items inp ≠ [] ∧ ∀ x ∈ items inp, GoodSrc x) ∧
     (∀ e, formatSrc inp = .error e → e = .badUserInput) ∧
-    (∀ (i : Nat) (cs : List (Obj G V)), (Obj.coll i cs).sourcesAll = cs.flatMap Obj.sourcesAll) ∧
-    (∀ (o : Obj G V) (e : Entry G V), o.toEntry? = some e → e.leaves = o.sourcesAll.map (·.2)) := by
+    (∀ (i : Nat) (cs : List (Iface.Obj G V)), (Obj.coll i cs).sourcesAll = cs.flatMap Obj.sourcesAll) ∧
+    (∀ (o : Iface.Obj G V) (e : Entry G V), o.toEntry? = some e → e.leaves = o.sourcesAll.map (·.2)) := by
   refine ⟨?_, ?_, formatSrc_error inp, sourcesAll_coll, toEntry?_leaves⟩
   · intro sf hs
     have hsf := (formatSrc_ok_iff inp sf).mp hs
@@ -570,7 +571,7 @@ theorem format_src_flatten_spec (inp : Inp G V) :
       have hsf := (formatSrc_ok_iff inp sf).mp hs
       exact ⟨hsf.1, hsf.2.1⟩
     · rintro ⟨hne, hg⟩
-      obtain ⟨os, hos⟩ : ∃ os : List (Obj G V), items inp = os.map Inp.obj := by
+      obtain ⟨os, hos⟩ : ∃ os : List (Iface.Obj G V), items inp = os.map Inp.obj := by
         generalize items inp = xs at hg
         induction xs with
         | nil => exact ⟨[], rfl⟩
@@ -641,7 +642,7 @@ section
 variable [One G] [Zero V]
 /-- **a Collection as observers is the list of its sensors** (`sensors_all`, depth first); without any sensor it is
 rejected; a bare Sensor is the one-element list. -/
-theorem collection_observers_are_its_sensors (i : Nat) (cs : List (Obj G V)) (agg : Agg) :
+theorem collection_observers_are_its_sensors (i : Nat) (cs : List (Iface.Obj G V)) (agg : Agg) :
     ((Obj.coll i cs).sensorsAll ≠ [] →
       formatObs (.obj (.coll i cs)) agg =
         formatObs (.list ((Obj.coll i cs).sensorsAll.map fun p => Inp.obj (.sens p.1 p.2))) agg) ∧
@@ -733,5 +734,259 @@ example :
   refine ⟨?_, ?_, by decide, by decide⟩
   · simp [formatObs, Inp.asArray, Inp.asArrays, sensorOfArray, freshSensor, Except.toOption]
   · simp [formatObs, Inp.asArray, Inp.asArrays, obsLoop, obsEntry, sensorOfArray, freshSensor, Except.toOption]
+
+
+/-! ### on the carrier the driver computes with (AUDIT X1)
+
+The driver families `level2`, `iface` and `dict` evaluate the models of this file at `M3 Int` / `V3 Int` (Model/Basic.lean,
+`⁻¹` = transpose — not a group).  Most theorems above are stated with the bare operation classes and apply to that
+carrier *verbatim*, for arbitrary integer matrices: `error_cases`, `method_wrappers_agree`, `method_forms_coincide`,
+`observers_as_positions`, `positions_output_shape`, `format_src_flatten_spec`, `collection_observers_are_its_sensors`,
+`marshalled_arg_row`, `dict_interface_is_level1_rowwise`, `local_observers_rowwise` (instances recorded below).  Three are
+over an abstract `Group G`: `dataframe_index_order`, `dataframe_order`, `position_pixels_are_the_positions`; they are
+transferred here through Lemmas/OctaCarrier.lean / Lemmas/OctaIface.lean (`Oct` = the group of octahedral rotation
+matrices; every interface function is natural in the inclusion `Oct → M3 Int`), under the decidable hypothesis that the
+rotation matrices of the input are octahedral — the only ones the streams send.  In addition the whole interface
+(`getBtop`, the three method forms, `getBH_dict_level2`) evaluated by the driver on octahedral data IS the same model
+evaluated at the group `Oct`, so everything C03–C06 prove about `level1` / `tensor` at a group applies behind it. -/
+section driverCarrier
+open MagpyVerif MagpyVerif.Level2 MagpyVerif.Iface
+
+/-- **`dataframe_index_order` on the driver's carrier** -/
+theorem dataframe_index_order_on_driver_carrier (flipX : V3 Int → V3 Int) (vmin vmax : V3 Int → V3 Int → V3 Int)
+    (entries : List EntryZ) (sensors : List SensZ) (sumup : Bool) (agg : Agg) (out : Out (V3 Int))
+    (heo : ∀ e ∈ entries, e.RotsOct) (hso : ∀ k ∈ sensors, k.RotsOct) (hs : ∀ k ∈ sensors, k.WF)
+    (hout : getBH flipX vmin vmax entries sensors sumup false agg = .ok out)
+    (k0 : SensZ) (hk0 : sensors.head? = some k0) :
+    ∃ df, dataframe flipX vmin vmax entries sensors sumup agg = .ok df ∧
+      df.values = out.data ∧ df.index.length = df.values.length ∧
+      ∀ l m k p, l < (if sumup then 1 else entries.length) →
+        m < pathLen (entries.flatMap Entry.leaves) sensors → k < sensors.length →
+        p < (if agg = .none then pixNum k0 else 1) →
+        df.index[((l * pathLen (entries.flatMap Entry.leaves) sensors + m) * sensors.length + k) *
+            (if agg = .none then pixNum k0 else 1) + p]? =
+          some (if sumup = true ∧ entries.length > 1 then .sumup entries.length else .src l, m, k, p) := by
+  obtain ⟨es, rfl⟩ := exists_oct_entries entries heo
+  obtain ⟨ks, rfl⟩ := exists_oct_sensors sensors hso
+  rw [List.head?_map] at hk0
+  cases hk : ks.head? with
+  | none => rw [hk] at hk0; cases hk0
+  | some k0' =>
+    rw [hk] at hk0
+    simp only [Option.map_some, Option.some.injEq] at hk0
+    subst hk0
+    rw [getBH_at_Oct_eq_at_M3Int] at hout
+    have hs' : ∀ k ∈ ks, k.WF := fun k h => (Sens.mapG_WF Oct.toM3 k).mp (hs _ (List.mem_map_of_mem h))
+    have := dataframe_index_order flipX vmin vmax es ks sumup agg out hs' hout k0' hk
+    simpa only [dataframe_at_Oct_eq_at_M3Int, flatMap_leaves_mapG, pathLen_mapG, List.length_map, pixNum_mapG]
+      using this
+
+/-- **`dataframe_order` on the driver's carrier**: row number `((i·M + m)·K + n)·P + j` of the dataframe the driver
+builds carries the index `(source i, m, sensor n, pixel j)` and the value: sum over the leaves of entry `i` of `level1`
+at pixel `j` of sensor `n`, taken into the sensor frame — all with the integer matrix operations (`r⁻¹` = transpose) -/
+theorem dataframe_order_on_driver_carrier (flipX : V3 Int → V3 Int) (vmin vmax : V3 Int → V3 Int → V3 Int)
+    (entries : List EntryZ) (sensors : List SensZ) (df : DataFrame (V3 Int))
+    (heo : ∀ e ∈ entries, e.RotsOct) (hso : ∀ k ∈ sensors, k.RotsOct) (hs : ∀ k ∈ sensors, k.WF)
+    (hdf : dataframe flipX vmin vmax entries sensors false .none = .ok df)
+    (i m n j : Nat) (e : EntryZ) (k : SensZ) (r : M3 Int) (p px : V3 Int)
+    (hi : entries[i]? = some e) (hm : m < pathLen (entries.flatMap Entry.leaves) sensors)
+    (hn : sensors[n]? = some k) (hr : clampGet k.ori m = some r) (hp : clampGet k.pos m = some p)
+    (hj : k.pixels[j]? = some px) :
+    (dataframeRows df)[((i * pathLen (entries.flatMap Entry.leaves) sensors + m) * sensors.length + n) *
+        pixNum k + j]? =
+      some ((.src i, m, n, j),
+        (let v := r⁻¹ • ((e.leaves.map fun s => level1 s m (r • px + p)).sum)
+         if k.left then flipX v else v)) := by
+  obtain ⟨es, rfl⟩ := exists_oct_entries entries heo
+  obtain ⟨ks, rfl⟩ := exists_oct_sensors sensors hso
+  rw [List.getElem?_map] at hi hn
+  cases hi' : es[i]? with
+  | none => rw [hi'] at hi; cases hi
+  | some e' =>
+  cases hn' : ks[n]? with
+  | none => rw [hn'] at hn; cases hn
+  | some k' =>
+  rw [hi'] at hi
+  rw [hn'] at hn
+  simp only [Option.map_some, Option.some.injEq] at hi hn
+  subst hi
+  subst hn
+  have hr2 : (clampGet k'.ori m).map Oct.toM3 = some r := by rw [← clampGet_map]; exact hr
+  cases hr' : clampGet k'.ori m with
+  | none => rw [hr'] at hr2; cases hr2
+  | some r' =>
+  rw [hr'] at hr2
+  simp only [Option.map_some, Option.some.injEq] at hr2
+  subst hr2
+  rw [dataframe_at_Oct_eq_at_M3Int] at hdf
+  have hs' : ∀ k ∈ ks, k.WF := fun k h => (Sens.mapG_WF Oct.toM3 k).mp (hs _ (List.mem_map_of_mem h))
+  rw [flatMap_leaves_mapG, pathLen_mapG] at hm
+  have h := dataframe_order flipX vmin vmax es ks df hs' hdf i m n j e' k' r' p px hi' hm hn' hr' hp hj
+  have hval : ((Entry.toM3 e').leaves.map fun s => level1 s m (r'.toM3 • px + p)).sum =
+      (e'.leaves.map fun s => level1 s m (r' • px + p)).sum := by
+    rw [Entry.mapG_leaves, List.map_map]
+    congr 1
+    apply List.map_congr_left
+    intro s _
+    exact level1_at_Oct_eq_at_M3Int s m (r' • px + p)
+  simp only [flatMap_leaves_mapG, pathLen_mapG, List.length_map, pixNum_mapG, hval]
+  exact h
+
+/-- **`position_pixels_are_the_positions` on the driver's carrier**: the Sensor the driver creates for a position
+array has its pixels at the given positions at every path index (`1 • px + 0` with the integer unit matrix), counts as
+unrotated under the derived `==`, and is right-handed -/
+theorem position_pixels_are_the_positions_on_driver_carrier (sh : List Nat) (d : List (V3 Int)) (m : Nat) :
+    poso [(freshSensor sh d : SensZ)] m = d ∧ unrotated (freshSensor sh d : SensZ) = true ∧
+      (freshSensor sh d : SensZ).left = false := by
+  obtain ⟨h1, h2, _⟩ := position_pixels_are_the_positions (G := Oct) sh d m
+  refine ⟨?_, ?_, rfl⟩
+  · rw [← freshSensor_toM3]
+    exact (poso_at_Oct_eq_at_M3Int [freshSensor sh d] m).trans h1
+  · rw [← freshSensor_toM3]
+    exact (unrotated_mapG octHom _).trans h2
+
+/-- **the top-level call and the three method forms on the driver's carrier are the group model's**: for call inputs
+whose rotation matrices (orientation paths of all sources and sensors mentioned, any depth) are octahedral, what the
+driver family `iface` computes with the integer matrix operations is `getBtop` / `src.getX` / `sens.getX` /
+`coll.getX` evaluated at the group `Oct` on the corresponding inputs — results (shape, data, error kind) are equal -/
+theorem interface_on_driver_carrier_is_group_model (flipX : V3 Int → V3 Int) (vmin vmax : V3 Int → V3 Int → V3 Int) :
+    (∀ (s o : InpZ) (f : Flags), s.RotsOct → o.RotsOct →
+      ∃ s' o' : Inp Oct (V3 Int), s'.toM3 = s ∧ o'.toM3 = o ∧
+        getBtop flipX vmin vmax s o f = getBtop flipX vmin vmax s' o' f) ∧
+    (∀ (i : Nat) (self : SrcZ) (obs : List InpZ) (squeeze : Bool) (agg : AggIn) (outOk : Bool),
+      (∀ r ∈ self.ori, IsOct r) → Inp.RotsOctL obs →
+      ∃ (self' : Src Oct (V3 Int)) (obs' : List (Inp Oct (V3 Int))), self'.toM3 = self ∧ Inp.mapGs Oct.toM3 obs' = obs ∧
+        srcMethod flipX vmin vmax i self obs squeeze agg outOk =
+          srcMethod flipX vmin vmax i self' obs' squeeze agg outOk) ∧
+    (∀ (i : Nat) (self : SensZ) (srcs : List InpZ) (f : Flags), self.RotsOct → Inp.RotsOctL srcs →
+      ∃ (self' : Sens Oct (V3 Int)) (srcs' : List (Inp Oct (V3 Int))), self'.toM3 = self ∧
+        Inp.mapGs Oct.toM3 srcs' = srcs ∧
+        sensMethod flipX vmin vmax i self srcs f = sensMethod flipX vmin vmax i self' srcs' f) ∧
+    (∀ (i : Nat) (cs : List WObjZ) (inputs : List InpZ) (squeeze : Bool) (agg : AggIn) (outOk : Bool),
+      (∀ c ∈ cs, c.RotsOct) → Inp.RotsOctL inputs →
+      ∃ (cs' : List (Iface.Obj Oct (V3 Int))) (inputs' : List (Inp Oct (V3 Int))),
+        Obj.mapGs Oct.toM3 cs' = cs ∧ Inp.mapGs Oct.toM3 inputs' = inputs ∧
+        collMethod flipX vmin vmax i cs inputs squeeze agg outOk =
+          collMethod flipX vmin vmax i cs' inputs' squeeze agg outOk) := by
+  refine ⟨?_, ?_, ?_, ?_⟩
+  · intro s o f hs ho
+    obtain ⟨s', rfl⟩ := exists_oct_inp s hs
+    obtain ⟨o', rfl⟩ := exists_oct_inp o ho
+    exact ⟨s', o', rfl, rfl, getBtop_at_Oct_eq_at_M3Int flipX vmin vmax s' o' f⟩
+  · intro i self obs squeeze agg outOk hself hobs
+    obtain ⟨l, hl⟩ := exists_map_eq_of_forall_mem Oct.toM3 self.ori (fun r hr => Oct.exists_toM3_eq (hself r hr))
+    obtain ⟨obs', rfl⟩ := exists_oct_inps obs hobs
+    refine ⟨{ pos := self.pos, ori := l, F := self.F }, obs', ?_, rfl, ?_⟩
+    · simp only [Src.toM3, Src.mapG, hl]
+    · have := srcMethod_at_Oct_eq_at_M3Int flipX vmin vmax i { pos := self.pos, ori := l, F := self.F } obs'
+        squeeze agg outOk
+      simpa only [Src.toM3, Src.mapG, hl] using this
+  · intro i self srcs f hself hsrcs
+    obtain ⟨self', rfl⟩ := exists_oct_sensor self hself
+    obtain ⟨srcs', rfl⟩ := exists_oct_inps srcs hsrcs
+    exact ⟨self', srcs', rfl, rfl, sensMethod_at_Oct_eq_at_M3Int flipX vmin vmax i self' srcs' f⟩
+  · intro i cs inputs squeeze agg outOk hcs hin
+    obtain ⟨cs', rfl⟩ := exists_oct_wobjs cs hcs
+    obtain ⟨inputs', rfl⟩ := exists_oct_inps inputs hin
+    exact ⟨cs', inputs', rfl, rfl, collMethod_at_Oct_eq_at_M3Int flipX vmin vmax i cs' inputs' squeeze agg outOk⟩
+
+/-- **`method_forms_coincide` on the driver's carrier** — an instance (bare operation classes; no hypothesis on the
+matrices) -/
+theorem method_forms_coincide_on_driver_carrier (flipX : V3 Int → V3 Int) (vmin vmax : V3 Int → V3 Int → V3 Int)
+    (i j : Nat) (s : SrcZ) (k : SensZ) (cs : List WObjZ) (squeeze : Bool) (agg : AggIn) (outOk : Bool) :
+    let f : Flags := { sumup := false, squeeze := squeeze, agg := agg, outOk := outOk }
+    srcMethod flipX vmin vmax i s [.obj (.sens j k)] squeeze agg outOk =
+      sensMethod flipX vmin vmax j k [.obj (.src i s)] f ∧
+    (collBranch i cs = .noSensors →
+      collMethod flipX vmin vmax i cs [.obj (.sens j k)] squeeze agg outOk =
+        sensMethod flipX vmin vmax j k [.obj (.coll i cs)] f) ∧
+    (collBranch i cs = .noSources →
+      collMethod flipX vmin vmax i cs [.obj (.src j s)] squeeze agg outOk =
+        srcMethod flipX vmin vmax j s [.obj (.coll i cs)] squeeze agg outOk) :=
+  method_forms_coincide flipX vmin vmax i j s k cs squeeze agg outOk
+
+/-- **`observers_as_positions` on the driver's carrier** — an instance (bare operation classes) -/
+theorem observers_as_positions_on_driver_carrier (flipX : V3 Int → V3 Int) (vmin vmax : V3 Int → V3 Int → V3 Int)
+    (srcs : InpZ) (sh : List Nat) (d : List (V3 Int)) (hd : d ≠ []) (i : Nat) (f : Flags) :
+    getBtop flipX vmin vmax srcs (.pos sh d) f =
+      getBtop flipX vmin vmax srcs (.obj (.sens i (freshSensor sh d))) f :=
+  (observers_as_positions flipX vmin vmax srcs sh d hd i f).1
+
+/-- **`dict_interface_is_level1_rowwise` on the driver's carrier**: if the driver's evaluation of
+`getB("Class", observers, position=…, orientation=…, **kwargs)` with octahedral orientation matrices returns, then the
+call is the inclusion of a call over the group `Oct`, it has a well-defined number of rows n, the result has n rows, and
+row i is `Level2.level1` of the one-pose source at the i-th pose and parameter set at the i-th observer — evaluated with
+the integer matrix operations (what the driver does), which is the same vector as `level1` evaluated at the group `Oct`
+(the object C03–C06 reason about). -/
+theorem dict_interface_is_level1_rowwise_on_driver_carrier {α : Type} (tables : List (String × List (String × Nat)))
+    (cls : String) (F : List (String × Arr α) → V3 Int → V3 Int) (c : CallZ α) (out : Level2.Out (V3 Int))
+    (hc : c.RotsOct) (h : call tables cls F c = .ok out) :
+    ∃ (c' : Call Oct (V3 Int) α) (table : List (String × Nat)) (m : Marshalled Oct (V3 Int) α),
+      c'.toM3 = c ∧ tables.lookup cls = some table ∧ marshal table c' = .ok m ∧
+      marshal table c = .ok (m.mapG Oct.toM3) ∧
+      out.data.length = m.n ∧
+      out.shape = (if c.squeeze then [m.n].filter (· ≠ 1) else [m.n]) ∧
+      ∀ i, i < m.n → ∃ (x p : V3 Int) (r : Oct),
+        pick i c.observers = some x ∧ pick i c.position = some p ∧ pick i c.orientation = some r.toM3 ∧
+        out.data[i]? = some (Level2.level1 (G := M3 Int) { pos := [p], ori := [r.toM3], F := F (paramSet m i) } 0 x) ∧
+        out.data[i]? = some (Level2.level1 (G := Oct) { pos := [p], ori := [r], F := F (paramSet m i) } 0 x) := by
+  obtain ⟨c', rfl⟩ := exists_oct_call c hc
+  rw [call_at_Oct_eq_at_M3Int] at h
+  obtain ⟨table, m, htab, hm, hlen, hshape, hrows⟩ := dict_interface_is_level1_rowwise tables cls F c' out h
+  refine ⟨c', table, m, rfl, htab, hm, ?_, hlen, hshape, ?_⟩
+  · rw [marshal_at_Oct_eq_at_M3Int, hm]; rfl
+  · intro i hi
+    obtain ⟨x, p, r, hx, hp, hr, hrow, _⟩ := hrows i hi
+    refine ⟨x, p, r, hx, hp, ?_, ?_, hrow⟩
+    · show pick i (c'.orientation.map Oct.toM3) = some r.toM3
+      rw [pick_map, hr]; rfl
+    · rw [hrow]
+      exact congrArg some (level1_at_Oct_eq_at_M3Int { pos := [p], ori := [r], F := F (paramSet m i) } 0 x).symm
+
+-- non-vacuity, driver-style data: the dict call of `DictExample` (orientation stack [1, 90° about z]) is octahedral and
+-- returns, so the theorem applies to it; a source turned by 90° about z read by a sensor turned by 90° about x through
+-- the three method forms (octahedral world: the hypotheses of `interface_on_driver_carrier_is_group_model` hold)
+open DictExample in
+example : exCall.RotsOct ∧ ∃ out, call exTables "Cuboid" exF exCall = .ok out := by
+  refine ⟨?_, ?_⟩
+  · intro r hr
+    simp only [exCall, Given.toList, List.mem_cons, List.not_mem_nil, or_false] at hr
+    rcases hr with rfl | rfl <;> decide
+  · cases h : call exTables "Cuboid" exF exCall with
+    | ok o => exact ⟨o, rfl⟩
+    | error e =>
+      have : (call exTables "Cuboid" exF exCall).toOption.isSome = true := by decide
+      rw [h] at this; cases this
+open Level2.DriverExample in
+example :
+    let s : SrcZ := ⟨[⟨3, 0, 0⟩, ⟨4, 0, 0⟩], [1, rotZ90], fun x => x + ⟨1, 0, 0⟩⟩
+    let k : SensZ := ⟨[⟨7, 0, 0⟩], [rotX90], [⟨0, 0, 0⟩, ⟨1, 0, 0⟩], [2], true⟩
+    (∀ r ∈ s.ori, IsOct r) ∧ k.RotsOct ∧ Inp.RotsOctL [Inp.obj (.sens 1 k)] ∧ Inp.RotsOctL [Inp.obj (.src 0 s)] ∧
+    (∃ out, srcMethod drvFlip (fun a _ => a) (fun a _ => a) 0 s [.obj (.sens 1 k)] false (.agg .none) true = .ok out ∧
+      out.shape = [1, 2, 1, 2]) := by
+  intro s k
+  have hs : ∀ r ∈ s.ori, IsOct r := by
+    simp only [s, List.mem_cons, List.not_mem_nil, or_false, forall_eq_or_imp, forall_eq]; decide
+  have hk : k.RotsOct := by
+    simp only [Sens.RotsOct, k, List.mem_cons, List.not_mem_nil, or_false, forall_eq]; decide
+  refine ⟨hs, hk, ?_, ?_, ?_⟩
+  · intro o ho
+    simp only [Inp.objsL, Inp.objs, List.append_nil, List.mem_singleton] at ho
+    subst ho
+    exact ⟨by simp [Iface.Obj.sourcesAll], by
+      intro p hp r hr
+      simp only [Iface.Obj.sensorsAll, List.mem_singleton] at hp
+      subst hp
+      exact hk r hr⟩
+  · intro o ho
+    simp only [Inp.objsL, Inp.objs, List.append_nil, List.mem_singleton] at ho
+    subst ho
+    exact ⟨by simpa [Iface.Obj.sourcesAll] using hs, by simp [Iface.Obj.sensorsAll]⟩
+  · refine ⟨_, getBtop_ok _ _ _ _ _ _ ⟨[.src 0 s], [(0, s)]⟩ .none [(.user 1, k)] ?_ rfl ?_ ?_, ?_⟩
+    · simp [formatSrc_eq, items, checkSrcEntries, checkSrcEntry, Iface.Obj.sourcesAll]
+    · simp [starInput, formatObs_sensor]
+    · simp [BadInput, SrcFmt.entries, Iface.Obj.toEntries, Iface.Obj.toEntry?, Entry.leaves, k]
+    · simp [shape0, pathLen, SrcFmt.entries, Iface.Obj.toEntries, Iface.Obj.toEntry?, Entry.leaves, s, k]
+end driverCarrier
 
 end MagpyVerif.C07
